@@ -346,6 +346,170 @@ pub fn group_scheme<S: LinMap>(rec: &mut Rec, max_len: usize) {
     }
 }
 
+
+/// Size ladder (cf. C01 slice E): commit == naive key sum for polynomials around every power of two up to 128
+/// (512 thorough), plain and shifted parts, key exactly as large as / larger than the polynomial.
+pub fn group_ladder<S: LinMap>(rec: &mut Rec) {
+    let mut cfgs: Vec<KeyCfg> = Vec::new();
+    for s in crate::checks::c01::ladder_sizes(rec.thorough()) {
+        match S::NAME {
+            "IPA" => {
+                if (s + 1).is_power_of_two() {
+                    cfgs.push(KeyCfg::uni(s, s, 1, None));
+                }
+            }
+            "PST" => {}
+            _ => {
+                cfgs.push(KeyCfg::uni(s, s, 1, Some(vec![s / 2, s])));
+                cfgs.push(KeyCfg::uni(s + 3, s, 1, Some(vec![s / 2, s])));
+            }
+        }
+    }
+    if S::NAME == "PST" {
+        for (nv, d) in [(2usize, 8usize), (3, 5), (4, 4), (6, 2)] {
+            cfgs.push(KeyCfg::mv(nv, d, d));
+        }
+    }
+    rec.scope(format!("{}: size ladder, {} keys, shapes full / one below / half / low zero / top only / padded, bounds None, s/2, s", S::NAME, cfgs.len()));
+    for cfg in cfgs {
+        let s = cfg.sup;
+        let keep: Vec<String> = if S::FAM == Fam::Uni {
+            vec![format!("dense({})", s), format!("dense({})", s - 1), format!("dense({})", s / 2), format!("lowzero({})", s), format!("top({})", s), format!("top({})", s / 2), format!("padded({})", s - 1)]
+        } else {
+            vec!["dense".into()]
+        };
+        let mut shapes: Vec<(String, S::P)> = S::shapes(&cfg, rec.seed).into_iter().filter(|(n, _)| keep.contains(n)).collect();
+        if S::FAM == Fam::Mv {
+            let full: Vec<(String, S::P)> = S::shapes(&cfg, rec.seed).into_iter().filter(|(n, p)| n.starts_with("mono") && S::degree(p) == s).collect();
+            shapes.extend(full);
+        }
+        let bounds: Vec<Option<usize>> = if S::BOUNDS { vec![None, Some(s / 2), Some(s)] } else { vec![None] };
+        let mut todo = Vec::new();
+        for (name, p) in shapes.iter() {
+            for b in bounds.iter() {
+                if let Some(d) = b {
+                    if S::degree(p) > *d {
+                        continue;
+                    }
+                }
+                let id = format!("{}/lin-ladder/{}/{}/b={:?}", S::NAME, cfg.id(), name, b);
+                if rec.take(&id) {
+                    todo.push((id, p.clone(), *b));
+                }
+            }
+        }
+        if todo.is_empty() {
+            continue;
+        }
+        let keys = match build_keys::<S>(&cfg, rec.seed) {
+            Ok(k) => k,
+            Err(o) => {
+                viol(rec, S::NAME, "trim/in-domain", &todo[0].0, format!("setup/trim failed: {}", o.short()));
+                continue;
+            }
+        };
+        for (id, p, b) in todo {
+            rec.dim("scheme", S::NAME);
+            rec.dim("part", "ladder");
+            rec.op(1);
+            let lpoly = lp::<S>("p", p, b, None);
+            let got = match do_commit::<S>(&keys.ck, &[lpoly.clone()], None) {
+                Ok((c, _)) => c[0].commitment().clone(),
+                Err(o) => {
+                    viol(rec, S::NAME, "commit/in-domain", &id, format!("commit failed: {}", o.short()));
+                    continue;
+                }
+            };
+            match S::expected(&keys, &lpoly) {
+                Ok(want) => {
+                    let eq = ser(&got) == ser(&want);
+                    rec.class(if eq { "matches-naive-msm" } else { "differs-from-naive-msm" });
+                    if !eq {
+                        viol(rec, S::NAME, if b.is_some() { "commit/shifted-or-plain-differs-from-key-map" } else { "commit/differs-from-key-map" }, &id, "commit(p) != sum of key elements weighted by the coefficients".into());
+                    }
+                }
+                Err(e) => viol(rec, S::NAME, "commit/reference", &id, e),
+            }
+        }
+    }
+}
+
+/// The same ladder for KZG10 direct and the two streaming committers.
+pub fn special_ladder(rec: &mut Rec) {
+    type G1 = <E381 as Pairing>::G1Affine;
+    let sizes = crate::checks::c01::ladder_sizes(rec.thorough());
+    let top = *sizes.iter().max().unwrap();
+    let pp = kzg_setup(top + 3, false, rec.seed, 0);
+    let ck = str_key(top + 1, 2, rec.seed);
+    let stream = skzg::CommitterKeyStream::from(&ck);
+    let g: Vec<G1> = stream.powers_of_g.0.to_vec();
+    let r = rho_stream::<Fr381>(rec.seed, 1, top + 2);
+    rec.scope(format!("KZG direct, STR time and space committers: size ladder {:?}", sizes));
+    for s in sizes {
+        let mut vs: Vec<(String, Vec<Fr381>)> = vec![(format!("dense({})", s), r[..=s].to_vec()), (format!("dense({})", s - 1), r[..s].to_vec())];
+        let mut c = r[..=s].to_vec();
+        c[0] = Fr381::zero();
+        c[1] = Fr381::zero();
+        vs.push((format!("lowzero({})", s), c));
+        let mut c = vec![Fr381::zero(); s + 1];
+        c[s] = Fr381::one();
+        vs.push((format!("top({})", s), c));
+        let mut c = r[..=s].to_vec();
+        for i in 0..=s {
+            if i % 3 == 1 {
+                c[i] = Fr381::zero();
+            }
+        }
+        vs.push((format!("sparse3({})", s), c));
+        for (name, v) in vs {
+            for extra in [0usize, 2] {
+                let id = format!("KZG/lin-ladder/{}/len=deg+{}", name, 1 + extra);
+                if !rec.take(&id) {
+                    continue;
+                }
+                rec.dim("scheme", "KZG");
+                rec.op(1);
+                let p = UP::<Fr381>::from_coefficients_slice(&v);
+                let powers = kzg_powers(&pp, p.coeffs.len() + extra, 2);
+                match flat(catch(|| Kzg::commit(&powers, &p, None, None))) {
+                    Ok((c, _)) => {
+                        let eq = c.0 == naive_msm(&pp.powers_of_g[..p.coeffs.len()], &p.coeffs).into_affine();
+                        rec.class(if eq { "matches-naive-msm" } else { "differs-from-naive-msm" });
+                        if !eq {
+                            viol(rec, "KZG", "commit/differs-from-key-map", &id, "commit(p) != sum of key elements weighted by the coefficients".into());
+                        }
+                    }
+                    Err(o) => viol(rec, "KZG", "commit/in-domain", &id, format!("commit failed: {}", o.short())),
+                }
+            }
+            let id = format!("STR/lin-ladder/{}", name);
+            if !rec.take(&id) {
+                continue;
+            }
+            rec.dim("scheme", "STR");
+            rec.op(2);
+            let want = naive_msm(&g[..v.len()], &v).into_affine();
+            match catch(|| ck.commit(&v)) {
+                Ok(c) => {
+                    if c.verif_inner() != want {
+                        viol(rec, "STR", "commit/time-differs-from-key-map", &id, "time-efficient commit != naive sum".into());
+                    }
+                }
+                Err(e) => viol(rec, "STR", "commit/in-domain", &id, format!("time commit panicked: {}", e)),
+            }
+            let rev: Vec<Fr381> = v.iter().rev().cloned().collect();
+            match catch(|| stream.commit(&rev.as_slice())) {
+                Ok(c) => {
+                    if c.verif_inner() != want {
+                        viol(rec, "STR", "commit/space-differs-from-key-map", &id, "space-efficient commit != naive sum".into());
+                    }
+                }
+                Err(e) => viol(rec, "STR", "commit/in-domain", &id, format!("space commit panicked: {}", e)),
+            }
+        }
+    }
+}
+
 // ---------------------------------------------------------------------------------------------
 // hash-based schemes: reference root
 // ---------------------------------------------------------------------------------------------
@@ -830,5 +994,10 @@ pub fn run(rec: &mut Rec) {
     hash_scheme::<SMll>(rec, 4);
     hash_scheme::<SBrk>(rec, 4);
     special(rec, max_len.min(4));
+    group_ladder::<SMar>(rec);
+    group_ladder::<SSon>(rec);
+    group_ladder::<SIpa>(rec);
+    group_ladder::<SPst>(rec);
+    special_ladder(rec);
     randomness_algebra(rec, if rec.thorough() { 3 } else { 2 });
 }
